@@ -18,7 +18,9 @@ import (
 	"os"
 	"os/exec"
 	"sort"
+	"strconv"
 	"strings"
+	"sync"
 	"time"
 
 	"github.com/lni/dragonboat/v4"
@@ -35,6 +37,109 @@ import (
 func ctx() context.Context {
 	c, _ := context.WithTimeout(context.Background(), 10*time.Second)
 	return c
+}
+
+// guardCall: a configuration call made in process; a handler that panics is a finding (the call sequence so far is
+// the failing input), not the end of the harness
+func guardCall(fail func(clause, sig, what string), name string, f func() string) (res string) {
+	defer func() {
+		if rec := recover(); rec != nil {
+			res = "panic"
+			fail("config_never_failstops", "config-call-panics:"+name, fmt.Sprintf("%s made the service handler panic: %v", name, rec))
+		}
+	}()
+	return f()
+}
+
+// expCtx: a context whose deadline has passed from its k-th derived operation on (every DB operation of the service
+// derives its own context with a timeout, which asks the parent for its deadline once): the k-th operation fails before
+// it is issued, the ones before it run normally
+type expCtx struct {
+	mu sync.Mutex
+	n  int
+	k  int
+}
+
+func (c *expCtx) Deadline() (time.Time, bool) {
+	c.mu.Lock()
+	defer c.mu.Unlock()
+	c.n++
+	if c.n >= c.k {
+		return time.Now().Add(-time.Second), true
+	}
+	return time.Time{}, false
+}
+func (c *expCtx) Done() <-chan struct{}         { return nil }
+func (c *expCtx) Err() error                    { return nil }
+func (c *expCtx) Value(interface{}) interface{} { return nil }
+
+// replyReadFails: a report is two operations - the report is proposed and applied (the scheduled batch is handed over),
+// then the reply is read. A fault between the two (the read fails) is a lost reply and has to look like one: an error.
+// An answer without error carries exactly the batch that was scheduled for the address.
+func replyReadFails(run *hx.Run) {
+	h := nhx.NewDrummerDBHost()
+	defer h.Close()
+	srv := drummer.VerifNewServer(h.NH)
+	for k := 1; k <= 10; k++ {
+		addr := fmt.Sprintf("h%d", k)
+		batch := &pb.NodeHostRequestCollection{Requests: []*pb.NodeHostRequest{
+			{Change: &pb.Request{Type: pb.Request_KILL, ShardId: uint64(k), Members: []uint64{1}}, RaftAddress: addr},
+			{Change: &pb.Request{Type: pb.Request_DELETE, ShardId: uint64(k), Members: []uint64{2}, ConfChangeId: 3}, RaftAddress: addr}}}
+		if _, err := propose(h, &pb.Update{Type: pb.Update_REQUESTS, Requests: batch}); err != nil {
+			run.Count("c17:inconclusive_reply_read_probe")
+			continue
+		}
+		c := &expCtx{k: k}
+		reply, err := srv.ReportAvailableNodeHost(c, &pb.NodeHostInfo{RaftAddress: addr, RPCAddress: "rpc-" + addr, Region: "reg0"})
+		run.Count("case:report_with_failing_operation")
+		if err != nil {
+			run.Count("c17:report_with_failing_operation_refused")
+			continue
+		}
+		got := []string{}
+		if reply != nil {
+			for _, rq := range reply.Requests {
+				got = append(got, dbx.ReqStr(rq))
+			}
+		}
+		want := []string{dbx.ReqStr(batch.Requests[0]), dbx.ReqStr(batch.Requests[1])}
+		run.Count("c17:report_with_failing_operation_answered")
+		if strings.Join(got, ",") != strings.Join(want, ",") {
+			ops := []string{fmt.Sprintf("schedule %v for %s", want, addr), fmt.Sprintf("ReportAvailableNodeHost(%s) under a context whose deadline has passed from its operation %d on", addr, k)}
+			for _, p := range []string{"C10", "C17"} {
+				run.Violate(hx.Violation{Property: p, Clause: "reply_is_the_scheduled_batch", Signature: "answered-report-without-its-batch",
+					What: fmt.Sprintf("the report of %s was answered without error with %v; the batch scheduled for it is %v (the report was applied, the read of the reply failed: a lost reply has to be an error, the batch is gone at the next report)", addr, got, want), Ops: ops})
+			}
+		}
+	}
+}
+
+// deploymentIDs: the deployment id is any 64-bit value; what the DB holds is what GetDeploymentInfo answers
+func deploymentIDs(run *hx.Run) {
+	for _, id := range []uint64{1, math.MaxInt64, math.MaxInt64 + 1, math.MaxUint64} {
+		h := nhx.NewDrummerDBHost()
+		srv := drummer.VerifNewServer(h.NH)
+		_, err := propose(h, &pb.Update{Type: pb.Update_KV, KvUpdate: &pb.KV{Key: []byte("deployment-id"), Value: []byte(strconv.FormatUint(id, 10)), Finalized: true}})
+		if err != nil {
+			run.Count("c17:inconclusive_deployment_id")
+			h.Close()
+			continue
+		}
+		di, err := srv.GetDeploymentInfo(ctx(), &pb.Empty{})
+		run.Count("case:deployment_id_probe")
+		if err != nil || di == nil || di.DeploymentId != id {
+			got := "an error"
+			if err == nil && di != nil {
+				got = fmt.Sprint(di.DeploymentId)
+			} else if err != nil {
+				got = "error " + err.Error()
+			}
+			run.Violate(hx.Violation{Property: "C17", Clause: "query_reflects_state", Signature: "deployment-id-not-as-recorded",
+				What: fmt.Sprintf("the DB holds deployment id %d; GetDeploymentInfo answered %s", id, got),
+				Ops:  []string{fmt.Sprintf("KV deployment-id = %d (finalized)", id), "GetDeploymentInfo"}})
+		}
+		h.Close()
+	}
 }
 
 func codeStr(r *pb.ChangeResponse, err error) string {
@@ -327,6 +432,8 @@ func main() {
 	oversizedReport(run)
 	timedOutRound(run)
 	repeatedLaunchRound(run)
+	replyReadFails(run)
+	deploymentIDs(run)
 	for s := 0; s < *nseq; s++ {
 		r := hx.Rng(*seed, s)
 		g := dbx.NewGen(r, "general")
@@ -400,7 +507,9 @@ func main() {
 					}
 				}
 				before := shardsLine()
-				res := codeStr(srv.SubmitChange(ctx(), &pb.Change{Type: pb.Change_CREATE, ShardId: id, Members: members, AppName: app}))
+				res := guardCall(fail, "SubmitChange", func() string {
+					return codeStr(srv.SubmitChange(ctx(), &pb.Change{Type: pb.Change_CREATE, ShardId: id, Members: members, AppName: app}))
+				})
 				emit(dbx.Op{Op: "submit", ID: id, Members: members, App: app}, map[string]string{"OK": "OK", "SHARD_EXIST": "SHARD_EXIST", "BOOTSTRAPPED": "BOOTSTRAPPED", "refused": "refused"}[res])
 				want := "OK"
 				switch {
@@ -441,13 +550,13 @@ func main() {
 				}
 				pr := &pb.Regions{Region: regs, Count: counts}
 				raw, _ := proto.Marshal(pr)
-				res := codeStr(srv.SetRegions(ctx(), pr))
+				res := guardCall(fail, "SetRegions", func() string { return codeStr(srv.SetRegions(ctx(), pr)) })
 				emit(dbx.Op{Op: "regions", Hex: hex.EncodeToString(raw), Regs: regs, Counts: counts}, res)
 				if (kind != "") != (res == "refused") {
 					fail("malformed_refused", "regions-outcome:"+kind, fmt.Sprintf("SetRegions(%v, %v) answered %s", regs, counts, res))
 				}
 			case x < 20:
-				res := codeStr(srv.SetBootstrapped(ctx(), &pb.Empty{}))
+				res := guardCall(fail, "SetBootstrapped", func() string { return codeStr(srv.SetBootstrapped(ctx(), &pb.Empty{})) })
 				emit(dbx.Op{Op: "boot"}, res)
 				booted = true
 				if res != "OK" {
